@@ -157,6 +157,9 @@ def run_case(h, args, twin):
     return False
 
 
+PROBE_ARGS = []  # the first argument tuples that satisfied the precondition (handed to the replay when nothing else decided)
+
+
 def concrete_probe(h, seed, want=60, tries=40000):
     import random
 
@@ -164,6 +167,7 @@ def concrete_probe(h, seed, want=60, tries=40000):
     names = [a for a, _ in h.args]
     dom = list(range(0, 13)) + [15, 20, 50, 99, 100, 101, 1000]
     ran = 0
+    del PROBE_ARGS[:]
     code = [compile(p, "<pre>", "eval") for p in h.pre]
     for _ in range(tries):
         vals = [rnd.choice(dom) for _ in names]
@@ -174,6 +178,8 @@ def concrete_probe(h, seed, want=60, tries=40000):
         except Exception:
             continue
         ran += 1
+        if len(PROBE_ARGS) < 3:
+            PROBE_ARGS.append(list(vals))
         stubs.reset()
         rt.EXTRA.clear()
         rt.set_fuel(h.fuel)
@@ -288,7 +294,7 @@ def run_harness(mod, spec):
             # a failure found this way is replayed like any other counterexample, a clean probe leaves the obligation
             # INCONCLUSIVE (it is never counted as discharged).
             pf = concrete_probe(h, int(spec.get("seed", 0)))
-            out["probe"] = {"ran": pf[1], "failed": pf[0] is not None}
+            out["probe"] = {"ran": pf[1], "failed": pf[0] is not None, "args": [list(a) for a in PROBE_ARGS]}
             if pf[0] is not None:
                 STATS["fail"] = pf[0]
                 verdict = "refuted"
